@@ -1269,3 +1269,256 @@ M('C15','notifier-notify-keeps-entry','runtime/valuenotifier/listener.go','''	cl
 }''','''	close(valueListener.channel)
 }''','notifier/close-with-delete runtime/valuenotifier.Notifier.Notify')
 M('C15','unhook-wrong-id','runtime/event/hook.go','h.event.hooks.Delete(h.id)','h.event.hooks.Delete(h.id - 1)','ident/unique-hook-id runtime/event.Hook.Unhook')
+
+# ---------------- C01 / C02 / C03 (codecs)
+M('C01','stream-readbytes-single-read','serializer/stream/read.go','''	var buffer bytes.Buffer
+	nBytes, err := io.CopyN(&buffer, reader, int64(length))
+	if err != nil {
+		return nil, ierrors.Wrapf(err, "failed to read serialized bytes: read bytes (%d) != size (%d)", nBytes, length)
+	}
+
+	readBytes := buffer.Bytes()
+	if readBytes == nil {
+		readBytes = []byte{}
+	}
+''','''	var _ bytes.Buffer
+	readBytes := make([]byte, length)
+	nBytes, err := reader.Read(readBytes)
+	if err != nil {
+		return nil, ierrors.Wrap(err, "failed to read serialized bytes")
+	}
+	if nBytes != length {
+		return nil, ierrors.Errorf("failed to read serialized bytes: read bytes (%d) != size (%d)", nBytes, length)
+	}
+''','stream/no-bare-read')
+M('C02','stream-readbytes-prealloc','serializer/stream/read.go','''	var buffer bytes.Buffer
+	nBytes, err := io.CopyN(&buffer, reader, int64(length))
+	if err != nil {
+		return nil, ierrors.Wrapf(err, "failed to read serialized bytes: read bytes (%d) != size (%d)", nBytes, length)
+	}
+
+	readBytes := buffer.Bytes()
+	if readBytes == nil {
+		readBytes = []byte{}
+	}
+''','''	var _ bytes.Buffer
+	readBytes := make([]byte, length)
+	nBytes, err := io.ReadFull(reader, readBytes)
+	if err != nil {
+		return nil, ierrors.Wrapf(err, "failed to read serialized bytes: read bytes (%d) != size (%d)", nBytes, length)
+	}
+''','alloc/bounded-by-input serializer/stream read helpers')
+M('C01','decodearray-tempcopy-to-decoder','serializer/serix/decode.go','''	var bytesRead int
+	if err := decodeArrayViaSlice(value, func(sliceValue reflect.Value, sliceValueType reflect.Type) (err error) {
+		bytesRead, err = api.decodeSlice(ctx, b, sliceValue, sliceValueType, ts, opts)
+
+		return err
+	}); err != nil {''','''	bytesRead, err := api.decodeSlice(ctx, b, sliceValue, sliceValueType, ts, opts)
+	if err != nil {''','tempcopy/written-back sliceFromArray(value) in serializer/serix.API.decodeArray')
+M('C01','decodearray-no-writeback','serializer/serix/decode.go','''		fillArrayFromSlice(value, sliceValue)
+
+		return deseri.Done()''','''		return deseri.Done()''','tempcopy/written-back sliceFromArray(value) in serializer/serix.API.decodeArray')
+M('C01','mapdecode-array-no-writeback','serializer/serix/map_decode.go','''			copy(sliceValue.Bytes(), byteSlice)
+			fillArrayFromSlice(value, sliceValue)
+''','''			copy(sliceValue.Bytes(), byteSlice)
+''','tempcopy/written-back sliceFromArray(value) in serializer/serix.API.mapDecodeBasedOnType')
+M('C01','encodemap-no-ordering','serializer/serix/encode.go','''	ts = ts.ensureOrdering()
+
+	bytes, err := encodeSliceOfBytes(data, valueType, ts, opts)''','''	bytes, err := encodeSliceOfBytes(data, valueType, ts, opts)''','determinism/map-ordering serializer/serix.API.encodeMap')
+M('C01','write-sort-only-without-validation','serializer/serializer.go','''	if deSeriMode.HasMode(DeSeriModePerformLexicalOrdering) && sliceRules.ValidationMode.HasMode(ArrayValidationModeLexicalOrdering) {
+		sort.Slice(data, func(i, j int) bool {''','''	if deSeriMode.HasMode(DeSeriModePerformLexicalOrdering) && sliceRules.ValidationMode.HasMode(ArrayValidationModeLexicalOrdering) && eleValFunc == nil {
+		sort.Slice(data, func(i, j int) bool {''','determinism/sort-before-write')
+M('C01','decode-drops-float32-kind','serializer/serix/decode.go','''	case reflect.Int8, reflect.Int16, reflect.Int32, reflect.Int64,
+		reflect.Uint8, reflect.Uint16, reflect.Uint32, reflect.Uint64,
+		reflect.Float32, reflect.Float64:''','''	case reflect.Int8, reflect.Int16, reflect.Int32, reflect.Int64,
+		reflect.Uint8, reflect.Uint16, reflect.Uint32, reflect.Uint64,
+		reflect.Float64:''','mirror/kind-dispatch serializer/serix.encodeBasedOnType <-> decodeBasedOnType')
+M('C01','writeslicelength-no-uint64','serializer/serializer.go','''	case SeriLengthPrefixTypeAsUint64:
+		if err := binary.Write(&s.buf, binary.LittleEndian, uint64(l)); err != nil {
+			s.err = errProducer(err)
+
+			return
+		}
+	default:''','''	default:''','table/length-prefix serializer.Serializer.writeSliceLength')
+M('C01','stream-writefixed-uint16-as-32','serializer/stream/write.go','''		if err := Write(writer, uint16(l)); err != nil {''','''		if err := Write(writer, uint32(l)); err != nil {''','table/length-prefix serializer/stream.writeFixedSize')
+M('C01','stream-peeksize-err-dropped','serializer/stream/read.go','''	if _, err = GoTo(reader, startOffset); err != nil {
+		return 0, ierrors.Wrap(err, "failed to go back to start offset")
+	}''','''	_, _ = GoTo(reader, startOffset)''','err/checked error of GoTo in serializer/stream.PeekSize',build=True)
+M('C02','readvarslice-no-return-on-length-error','serializer/serializer.go','''		d.err = errProducer(ierrors.Wrapf(ErrDeserializationLengthMaxExceeded, "denoted %d bytes, max allowed %d ", sliceLength, maxLen))
+
+		return d
+	case minLen > 0 && sliceLength < minLen:
+		d.err = errProducer(ierrors.Wrapf(ErrDeserializationLengthMinNotReached, "denoted %d bytes, min required %d ", sliceLength, minLen))
+
+		return d
+	}
+
+	// only allocate after it is known that the input really holds that many bytes
+	if len(d.src[d.offset:]) < sliceLength {
+		d.err = errProducer(ErrDeserializationNotEnoughData)
+
+		return d
+	}
+
+	dest := make([]byte, sliceLength)''','''		d.err = errProducer(ierrors.Wrapf(ErrDeserializationLengthMaxExceeded, "denoted %d bytes, max allowed %d ", sliceLength, maxLen))
+	case minLen > 0 && sliceLength < minLen:
+		d.err = errProducer(ierrors.Wrapf(ErrDeserializationLengthMinNotReached, "denoted %d bytes, min required %d ", sliceLength, minLen))
+	}
+
+	dest := make([]byte, sliceLength)
+	if len(d.src[d.offset:]) < sliceLength {
+		d.err = errProducer(ErrDeserializationNotEnoughData)
+
+		return d
+	}
+''','alloc/bounded-by-input make(?, sliceLength) in serializer.Deserializer.ReadVariableByteSlice')
+M('C02','readbool-no-guard','serializer/serializer.go','''	if len(d.src[d.offset:]) == 0 {
+		d.err = errProducer(ErrDeserializationNotEnoughData)
+
+		return d
+	}
+
+	switch d.src[d.offset : d.offset+1][0] {''','''	switch d.src[d.offset : d.offset+1][0] {''','deser/bounds-guarded d.src[d.offset:(d.offset+1)] in serializer.Deserializer.ReadBool')
+M('C02','readnum-guard-too-small','serializer/serializer.go','''	dataSize := numSize(dest)
+	if l < dataSize {''','''	dataSize := numSize(dest)
+	if l < OneByte {''','deser/bounds-guarded d.src[d.offset:(d.offset+l)] in serializer.Deserializer.ReadNum')
+M('C02','readslicelength-uint64-guard-4','serializer/serializer.go','''		if l < UInt64ByteSize {
+			return 0, errProducer(ErrDeserializationNotEnoughData)
+		}
+		l = UInt64ByteSize''','''		if l < UInt32ByteSize {
+			return 0, errProducer(ErrDeserializationNotEnoughData)
+		}
+		l = UInt64ByteSize''','in serializer.Deserializer.readSliceLength')
+M('C02','skip-unguarded','serializer/serializer.go','''	if len(d.src[d.offset:]) < skip {
+		d.err = errProducer(ErrDeserializationNotEnoughData)
+
+		return d
+	}
+	d.offset += skip''','''	d.offset += skip''','deser/offset-advance-guarded d.offset += skip in serializer.Deserializer.Skip')
+M('C02','mapdecode-unchecked-float','serializer/serix/map_decode.go','''	floatVal, ok := mapVal.(float64)
+	if !ok {
+		return 0, ierrors.Errorf("non number value in map, got %T instead", mapVal)
+	}
+
+	return floatVal, nil''','''	return mapVal.(float64), nil //nolint:forcetypeassert''','json/assertion-checked mapVal.(float64) in serializer/serix.mapValAsFloat64')
+M('C02','stream-readfixed-no-maxint-guard','serializer/stream/read.go','''		if result > math.MaxInt {
+			return 0, ierrors.Errorf("failed to read length prefix: length %d is out of range", result)
+		}
+''','''		_ = math.MaxInt
+''','alloc/prefix-fits-int serializer/stream.readFixedSize')
+M('C02','stream-readbytes-no-negative-check','serializer/stream/read.go','''	if length < 0 {
+		return nil, ierrors.Errorf("failed to read serialized bytes: invalid length %d", length)
+	}
+''','''''','alloc/prefix-fits-int serializer/stream.ReadBytes')
+M('C02','decode-new-panic','serializer/serix/decode.go','''	if value.IsNil() {
+		value.Set(reflect.MakeMap(valueType))
+	}
+
+	deserializeItem := func(b []byte) (bytesRead int, err error) {''','''	if value.IsNil() {
+		value.Set(reflect.MakeMap(valueType))
+	}
+	if len(b) == 0 {
+		panic("empty input for map")
+	}
+
+	deserializeItem := func(b []byte) (bytesRead int, err error) {''','panic/tabled serializer/serix.API.decodeMap')
+M('C02','readsequence-item-error-ignored','serializer/serializer.go','''		bytesRead, err := itemDeserializer(srcBefore)
+		if err != nil {
+			d.err = errProducer(err)
+
+			return d
+		}
+		d.offset = offsetBefore + bytesRead''','''		bytesRead, err := itemDeserializer(srcBefore)
+		if err != nil {
+			d.err = errProducer(err)
+		}
+		d.offset = offsetBefore + bytesRead''','loop/fallible-per-iteration serializer.Deserializer.ReadSequenceOfObjects')
+M('C03','big-endian-both-sides','serializer/serializer.go','',None,'endian/little-only',edits=[
+ ('serializer/serializer.go','''	if err := binary.Write(&s.buf, binary.LittleEndian, v); err != nil {
+		s.err = errProducer(err)
+	}
+
+	return s
+}
+
+// WriteUint256''','''	if err := binary.Write(&s.buf, binary.BigEndian, v); err != nil {
+		s.err = errProducer(err)
+	}
+
+	return s
+}
+
+// WriteUint256'''),
+ ('serializer/serializer.go','''	case *uint16:
+		*x = binary.LittleEndian.Uint16(data)''','''	case *uint16:
+		*x = binary.BigEndian.Uint16(data)''')])
+M('C03','readbool-lenient','serializer/serializer.go','''	case 1:
+		*dest = true
+	default:
+		d.err = errProducer(ErrDeserializationInvalidBoolValue)
+
+		return d
+	}''','''	default:
+		*dest = true
+	}''','bool/strict serializer.Deserializer.ReadBool')
+M('C03','reader-skips-element-validator','serializer/serializer.go','''		arrayElementValidator = arrayRules.ElementValidationFunc()
+	}
+
+	if sliceLength == 0 {''','''		_ = arrayRules.ValidationMode
+	}
+
+	if sliceLength == 0 {''','canonical/validators-both-sides serializer.Deserializer.ReadSequenceOfObjects')
+M('C03','reader-skips-bounds','serializer/serializer.go','''		if err := arrayRules.CheckBounds(uint(sliceLength)); err != nil {
+			d.err = errProducer(err)
+
+			return d
+		}
+
+		arrayElementValidator''','''		arrayElementValidator''','canonical/validators-both-sides serializer.Deserializer.ReadSequenceOfObjects')
+M('C03','decodemap-accepts-duplicates','serializer/serix/decode.go','''		if value.MapIndex(keyValue).IsValid() {
+			// map entry already exists
+			return 0, ierrors.Wrapf(ErrMapValidationViolatesUniqueness, "map entry with key %v already exists", keyValue.Interface())
+		}
+''','''''','canonical/map serializer/serix.API.decodeMap')
+M('C03','decodemap-no-ordering','serializer/serix/decode.go','''		return bytesRead, nil
+	}
+	ts = ts.ensureOrdering()
+''','''		return bytesRead, nil
+	}
+''','canonical/map serializer/serix.API.decodeMap')
+M('C03','optional-length-mismatch-tolerated','serializer/serix/decode.go','''			if bytesRead != int(payloadLength) {
+				return ierrors.Wrapf(
+					err,
+					"optional object length isn't equal to the amount of bytes read; length=%d, bytesRead=%d",
+					payloadLength, bytesRead,
+				)
+			}''','''			if bytesRead != int(payloadLength) {
+				bytesRead = int(payloadLength)
+			}''','canonical/optional-length')
+M('C03','lexical-validator-rejects-equal','serializer/serializable.go','''		case bytes.Compare(prev, next) > 0:''','''		case bytes.Compare(prev, next) >= 0:''','cmp/lexical serializer.ArrayRules.LexicalOrderValidator')
+M('C03','payload-marker-uint16','serializer/serializer.go','''binary.Write(&s.buf, binary.LittleEndian, uint32(length))''','''binary.Write(&s.buf, binary.LittleEndian, uint16(length))''','table/payload-marker serializer.Serializer.writePayloadLength')
+M('C03','writer-no-range-check','serializer/serializer.go','''		if l > math.MaxUint16 {
+			s.err = errProducer(ierrors.Errorf("unable to serialize collection length: length %d is out of range (0-%d)", l, math.MaxUint16))
+
+			return
+		}
+		if err := binary.Write(''','''		if err := binary.Write(''','table/length-prefix serializer.Serializer.writeSliceLength range check')
+M('C03','writebool-nonzero','serializer/serializer.go','''		val = 1
+''','''		val = 0xff
+''','bool/strict serializer.Serializer.WriteBool')
+# behaviour-preserving edits must stay silent
+M('C02','silent-readbool-guard-lt-one','serializer/serializer.go','''	if len(d.src[d.offset:]) == 0 {
+		d.err = errProducer(ErrDeserializationNotEnoughData)
+
+		return d
+	}
+
+	switch d.src[d.offset : d.offset+1][0] {''','''	if len(d.src[d.offset:]) < OneByte {
+		d.err = errProducer(ErrDeserializationNotEnoughData)
+
+		return d
+	}
+
+	switch d.src[d.offset : d.offset+1][0] {''','',silent=True)
+M('C02','silent-readstring-remaining-var','serializer/serializer.go','''	if len(d.src[d.offset:]) < skip {''','''	remaining := len(d.src[d.offset:])
+	if remaining < skip {''','',silent=True)
